@@ -51,7 +51,7 @@ def main():
     out_dir = os.path.join(VERIF, "seeded", name)
     os.makedirs(out_dir, exist_ok=True)
     for f in ("patch.diff", "demo.rs", "NOTES.md"):
-        if os.path.exists(os.path.join(seed_dir, f)):
+        if os.path.exists(os.path.join(seed_dir, f)) and os.path.abspath(seed_dir) != os.path.abspath(out_dir):
             shutil.copy(os.path.join(seed_dir, f), os.path.join(out_dir, f))
     base = "/var/tmp/seedeval.%d" % os.getpid()
     clean, patched = base + ".clean", base + ".patched"
